@@ -12,7 +12,7 @@
     the channel happens-before that makes the results visible to the caller. *)
 From Coq Require Import List Arith ZArith Bool.
 From OW Require Import Base.Interleave Wrapper.Spec Wrapper.Run Wrapper.Views Wrapper.CellFacts
-  Wrapper.RunProofs Wrapper.Footprint Wrapper.Examples.
+  Wrapper.RunProofs Wrapper.Footprint Wrapper.SharedVectors Wrapper.Examples.
 Import ListNotations.
 Local Open Scope nat_scope.
 
@@ -83,6 +83,19 @@ Section C05.
        (cell_prog V toZ K sp (mk_shapes nIn nI T N S oN oK oT nP nSets) (pviews_from maxd nSets 0 (s_params sp)) i).
   Proof. exact (fp_cell V toZ K sp). Qed.
 
+  (** The closed-form footprint lists of Wrapper/Run.v — the ones extracted and
+      compared with the accesses RECORDED on the real code — contain every
+      access the goroutine performs from memory [m]: exactly the parameter
+      elements of set [i mod nSets] (tables with the cell's own extents), its
+      state row, its input block rows, its output rows. *)
+  Theorem C05_cell_footprint_exact : forall nIn nI T N S oN oK oT nP nSets maxd,
+    K_state_len V K -> 1 <= nSets ->
+    forall i (m : mem addr V) e,
+    In e (trace_of (exec addr_eq_dec (cell_prog V toZ K sp (mk_shapes nIn nI T N S oN oK oT nP nSets) (pviews_from maxd nSets 0 (s_params sp)) i) m)) ->
+    if is_write e then In (ev_addr e) (cell_writes sp (mk_shapes nIn nI T N S oN oK oT nP nSets) i)
+    else In (ev_addr e) (cell_reads V toZ sp (mk_shapes nIn nI T N S oN oK oT nP nSets) maxd (fun o => m (BP, o)) i).
+  Proof. exact (cell_footprint_exact V toZ K sp). Qed.
+
   (** cells_disjoint: i <> j -> W_i ∩ (R_j ∪ W_j) = ∅ (different cells =
       different rows; row-major ravel is injective). *)
   Theorem C05_cells_disjoint : forall nIn nI T N S oN oK oT nP nSets,
@@ -116,9 +129,61 @@ Section C05.
   Proof. exact (run_schedule_independent V toZ K sp). Qed.
 End C05.
 Print Assumptions C05_cell_footprint.
+Print Assumptions C05_cell_footprint_exact.
 Print Assumptions C05_cells_disjoint.
 Print Assumptions C05_inputs_params_never_written.
 Print Assumptions C05_run_schedule_independent.
+
+(** The non-array shared state of Run, with the index vectors put into memory
+    (Wrapper/SharedVectors.v): shared size / step / shape vectors at addresses
+    [XShared ..], the position vectors of cell c at [XPos c ..] (allocated inside
+    the goroutine).  shared_vectors_readonly: whatever the memory holds, no
+    access of any goroutine writes an element of a shared vector, and the only
+    position vectors it writes are its own. *)
+Theorem C05_shared_vectors_readonly :
+  forall (V : Type) (toZ : V -> Z) K (sp : spec) (nIn nI T N S oN oK oT nP nSets : nat) (maxd : denv),
+  K_state_len V K ->
+  forall (i : nat) (m : mem xaddr (xval V)) (e : event xaddr (xval V)),
+  In e (trace_of (exec xaddr_eq_dec (ext_cell V toZ K sp nIn nI T N S oN oK oT nP nSets maxd i) m)) ->
+  is_write e = true ->
+  (forall v idx, ev_addr e <> XShared v idx) /\ (forall c v idx, ev_addr e = XPos c v idx -> c = i).
+Proof. exact shared_vectors_readonly. Qed.
+Print Assumptions C05_shared_vectors_readonly.
+
+(** Disjointness and schedule independence hold with the vectors included. *)
+Theorem C05_ext_cells_disjoint : forall (sp : spec) (nIn nI T N S oN oK oT nP nSets : nat),
+  wf_layout sp nIn nI T N S oN oK oT nSets ->
+  forall i j a, i <> j -> Wx sp nIn nI T N S oN oK oT nP nSets i a = true ->
+  Rx sp nIn nI T N S oN oK oT nP nSets j a = false /\ Wx sp nIn nI T N S oN oK oT nP nSets j a = false.
+Proof. exact ext_cells_disjoint. Qed.
+Print Assumptions C05_ext_cells_disjoint.
+
+Theorem C05_ext_schedule_independent :
+  forall (V : Type) (toZ : V -> Z) K (sp : spec) (nIn nI T N S oN oK oT nP nSets : nat) (maxd : denv),
+  wf_layout sp nIn nI T N S oN oK oT nSets -> K_state_len V K ->
+  forall (m : mem xaddr (xval V)) s m' ts' tr,
+  run_sched xaddr_eq_dec s m (ext_threads V toZ K sp nIn nI T N S oN oK oT nP nSets maxd) = (m', ts', tr) ->
+  finished ts' ->
+  (forall a, m' a = run_seq xaddr_eq_dec (ext_threads V toZ K sp nIn nI T N S oN oK oT nP nSets maxd) m a) /\
+  (forall j1 e1 j2 e2, In (j1, e1) tr -> In (j2, e2) tr -> j1 <> j2 ->
+     ev_addr e1 = ev_addr e2 -> is_write e1 = false /\ is_write e2 = false).
+Proof. exact ext_schedule_independent. Qed.
+Print Assumptions C05_ext_schedule_independent.
+
+(** With the prologue's values in the shared cells, the extended goroutine does
+    to the arrays exactly what [cell_prog i] (the goroutine of C04 / of the
+    theorems above) does, and leaves the shared vectors as they were. *)
+Theorem C05_ext_refines :
+  forall (V : Type) (toZ : V -> Z) K (sp : spec) (nIn nI T N S oN oK oT nP nSets : nat) (maxd : denv) (dv : V)
+         (i : nat) (m : mem xaddr (xval V)),
+  holds_shared V nIn nI T N S oN oK oT nP nSets m -> arrays_typed V m ->
+  res_of (exec xaddr_eq_dec (ext_cell V toZ K sp nIn nI T N S oN oK oT nP nSets maxd i) m) =
+  res_of (exec addr_eq_dec (cell_prog V toZ K sp (mk_shapes nIn nI T N S oN oK oT nP nSets) (pviews_from maxd nSets 0 (s_params sp)) i) (proj V dv m)) /\
+  (forall a, proj V dv (mem_of (exec xaddr_eq_dec (ext_cell V toZ K sp nIn nI T N S oN oK oT nP nSets maxd i) m)) a =
+             mem_of (exec addr_eq_dec (cell_prog V toZ K sp (mk_shapes nIn nI T N S oN oK oT nP nSets) (pviews_from maxd nSets 0 (s_params sp)) i) (proj V dv m)) a) /\
+  (forall v j, mem_of (exec xaddr_eq_dec (ext_cell V toZ K sp nIn nI T N S oN oK oT nP nSets maxd i) m) (XShared v j) = m (XShared v j)).
+Proof. exact ext_refines. Qed.
+Print Assumptions C05_ext_refines.
 
 (** One ow-sim generation: a goroutine per model type, each running its own Run
     on its own arrays (addresses carry the model type).  All cell goroutines of
